@@ -50,10 +50,20 @@ def dtype_kind(d):
     if isinstance(d, DType):
         return d.kind
     if isinstance(d, TypeModel):
-        return {"float": "real", "int": "real", "complex": "complex", "bool": "real", "object": "real"}.get(d.name)
+        return {"float": "real", "int": "real", "complex": "complex", "bool": "real", "object": "real",
+                "int64": "real", "int32": "real", "intp": "real", "bool_": "real"}.get(d.name)
     if isinstance(d, str):
         return {"float64": "real", "float": "real", "complex": "complex", "complex128": "complex"}.get(d)
     return None
+
+
+def _dim_index(v):
+    """integer value of an index entry (python / numpy int or an exact integer constant)"""
+    if isinstance(v, Poly):
+        if v.is_const() and v.const_value().denominator == 1:
+            return int(v.const_value())
+        raise Unsupported("symbolic index")
+    return int(v)
 
 
 class SymArr(np.ndarray):
@@ -1359,7 +1369,7 @@ class SymDomain(BaseDomain):
                     raise Unsupported("csr_matrix triplets without shape")
                 out = mk(shape, "real", sparse=True)
                 for v, r, c in zip(d._it(data), d._it(rows), d._it(cols)):
-                    r, c = int(r), int(c)
+                    r, c = _dim_index(r), _dim_index(c)      # index arrays built by integer arithmetic hold exact constants
                     if not (0 <= r < shape[0] and 0 <= c < shape[1]):
                         raise ModelError("csr_matrix: index out of bounds")
                     out[r, c] = out[r, c] + v
